@@ -14,7 +14,7 @@ def _units_body(tier, seed):
     us, unc = k6family.make_units('C06', MODULES, tier)
     UNCOVERED[:] = unc
     from checks import foundation
-    from checks import hello, helloext, serverhello
+    from checks import hello, helloext, serverhello, certrequest
     # decoder side of the record/handshake headers: on every accepted buffer the consumed length is the length the RFC
     # header declares (contracts/framing.py, written from the specifications), for every symbolic buffer
     from checks import c03_k8, e1
@@ -25,7 +25,7 @@ def _units_body(tier, seed):
         u.name = 'header/' + u.name
     from checks import tables as _tables
     _table_units = _tables.units(_tables.TLS)
-    return list(us) + hdr + [hello.unit(('K6', 'K3'), 'K6+K3'), hello.decode_unit(), helloext.unit(), serverhello.unit()] + foundation.units(tier, seed) + _table_units
+    return list(us) + hdr + [hello.unit(('K6', 'K3'), 'K6+K3'), hello.decode_unit(), helloext.unit(), serverhello.unit(), certrequest.unit()] + foundation.units(tier, seed) + _table_units
 
 
 
